@@ -1,7 +1,11 @@
 // Package order is a positive control for the unordered-iteration rule (R15.1).
 package order
 
-import "sort"
+import (
+	"maps"
+	"slices"
+	"sort"
+)
 
 // Leaky appends map keys in iteration order: the result differs from run to run.
 func Leaky(m map[string]int) []string {
@@ -29,4 +33,14 @@ func Sum(m map[string]int) int {
 		n += v
 	}
 	return n
+}
+
+// LeakyKeys materialises the randomised key order of a map through the iterator helpers.
+func LeakyKeys(m map[string]int) []string {
+	return slices.Collect(maps.Keys(m))
+}
+
+// SortedKeys sorts the sequence before it becomes a slice.
+func SortedKeys(m map[string]int) []string {
+	return slices.Sorted(maps.Keys(m))
 }
